@@ -659,6 +659,15 @@ func (e *Engine) applyContract(st *State, c *Contract, fn *ssa.Function, sig *ty
 		}
 	}
 	e.havocModifies(st, env, c)
+	if fn != nil {
+		// parameters through which the callee reaches a method that writes into the object behind an interface
+		// value (`modifies object(x)`): the object is known here, where it was boxed
+		for i := range e.P.objectParams(fn) {
+			if i < len(args) {
+				e.havocArgs(st, []Val{args[i]})
+			}
+		}
+	}
 	// the callee may allocate: results may refer to objects newer than the current watermark
 	na := e.S.Fresh("alloc", "Int")
 	st.assume(fmt.Sprintf("(>= %s %s)", na, st.alloc))
@@ -805,6 +814,13 @@ func (e *Engine) havocModifies(st *State, env *Env, c *Contract) {
 		return
 	}
 	for _, m := range c.Modifies {
+		if name, ok := isObjectEntry(m); ok {
+			// object(x): everything the object behind the pointer or interface value x holds
+			if v, ok := env.lookupIdent(name); ok {
+				e.havocArgs(st, []Val{v})
+			}
+			continue
+		}
 		loc := e.resolveModifies(st, env, m)
 		switch {
 		case loc.ghost != "":
